@@ -75,6 +75,10 @@ class Tomo:
         self.povms_ref = tester_povms_ref(d)
         self.states_ref = tester_states_ref(d)
         kw = dict(on_para_eq_constraint=flag, schedules="all")
+        if isinstance(epsp, str) and epsp.startswith("trunc:"):
+            # only the OTHER tolerance is passed: the projection threshold stays the documented default
+            kw["eps_truncate_imaginary_part"] = float(epsp[6:])
+            epsp = None
         if epsp is not None:
             kw["eps_proj_physical"] = epsp
         self.epsp = 1e-14 if epsp is None else epsp     # Settings.get_atol() / 10 is the documented default
